@@ -41,15 +41,15 @@ SCHEMA = {
         'typenames': 'list[str]', 'instantiations': 'list[list[ref:Typename]]',
     },
     'Method': {
-        'template': 'none|str|ref:Template', 'name': 'nestr', 'return_type': 'ref:ReturnType',
+        'template': 'none|estr|ref:Template', 'name': 'nestr', 'return_type': 'ref:ReturnType',
         'args': 'ref:ArgumentList', 'is_const': 'str', 'parent': 'estr|ref:Class',
     },
     'StaticMethod': {
-        'template': 'none|str|ref:Template', 'name': 'nestr', 'return_type': 'ref:ReturnType',
+        'template': 'none|estr|ref:Template', 'name': 'nestr', 'return_type': 'ref:ReturnType',
         'args': 'ref:ArgumentList', 'parent': 'estr|ref:Class',
     },
     'Constructor': {
-        'template': 'none|str|ref:Template', 'name': 'nestr', 'args': 'ref:ArgumentList', 'parent': 'estr|ref:Class',
+        'template': 'none|estr|ref:Template', 'name': 'nestr', 'args': 'ref:ArgumentList', 'parent': 'estr|ref:Class',
     },
     'Operator': {
         'name': 'nestr', 'operator': 'str', 'return_type': 'ref:ReturnType', 'args': 'ref:ArgumentList',
@@ -65,10 +65,10 @@ SCHEMA = {
     'TypedefTemplateInstantiation': {'typename': 'ref:Typename', 'new_name': 'str', 'parent': 'estr|ref:Namespace'},
     'GlobalFunction': {
         'name': 'nestr', 'return_type': 'ref:ReturnType', 'args': 'ref:ArgumentList',
-        'template': 'none|str|ref:Template', 'parent': 'estr|ref:Namespace',
+        'template': 'none|estr|ref:Template', 'parent': 'estr|ref:Namespace',
     },
     'Class': {
-        'template': 'none|str|ref:Template', 'is_virtual': 'str', 'name': 'nestr',
+        'template': 'none|estr|ref:Template', 'is_virtual': 'str', 'name': 'nestr',
         'parent_class': 'estr|ref:Typename|ref:TemplatedType',
         'ctors': 'list[ref:Constructor]', 'methods': 'list[ref:Method]',
         'static_methods': 'list[ref:StaticMethod]', 'dunder_methods': 'list[ref:DunderMethod]',
